@@ -83,7 +83,8 @@ RichF1(syn, pkg) ==
           XFld("zi", 5, 4, "", TScalar("string")),
           XMsg("a", 1),
           XFld("zh", 1, 7, "repeated", TRef(Abs(<<"b", "m">>))),
-          [XEnum("b", 0) EXCEPT !.alias = TRUE], XVal("za", 9, 0), XVal("zb", 9, 1),
+          [XEnum("b", 0) EXCEPT !.alias = TRUE, !.rr = << <<5, 7>>, <<10, 10>> >>, !.rn = <<"zn", "zm">>],
+          XVal("za", 9, 0), XVal("zb", 9, 1),
           XSvc("zs"), [XMtd("zr", 12, Rel(<<"m">>), Abs(<<"b", "m">>)) EXCEPT !.ss = TRUE],
           XFld("zk", 1, 8, IF syn = "proto2" THEN "required" ELSE sing, TRef(Rel(<<"m">>))) >>
        \o (IF p3 THEN << >> ELSE << XExt("zx", 0, 100, sing, Rel(<<"m">>), TScalar("int32")),
@@ -295,6 +296,7 @@ CollisionNames(g, d) ==
   IN sibs
      \cup (IF sp = 0 THEN {w[1] : w \in {ws[h].pkg : h \in UFiles} \ {<<>>}} ELSE {})
      \cup (IF F.decls[d].kind = "field" THEN Range(F.decls[sp].rn) \cup {t[2] : t \in {u \in JsonTwins : u[1] \in sibs}} ELSE {})
+     \cup (IF F.decls[d].kind = "value" THEN Range(F.decls[F.decls[d].parent].rn) ELSE {})
 MutSetName == "SetName" \in Muts /\ MutOK /\
   \E g \in UFiles : \E d \in {x \in Decls(ws[g]) : ~IsGroupDecl(ws[g].decls[x])} :
     \E nm \in CollisionNames(g, d) \ {ws[g].decls[d].name} :
@@ -303,7 +305,8 @@ MutSetPkg == "SetPkg" \in Muts /\ MutOK /\
   \E g \in UFiles : \E p \in {<<>>, <<"a">>, <<"b">>, <<"a", "b">>, <<"m">>, <<"a", "m">>} \ {ws[g].pkg} :
     Accept([ws EXCEPT ![g].pkg = p], "mut")
 MutSetValNum == "SetValNum" \in Muts /\ MutOK /\
-  \E g \in UFiles : \E v \in OfKind(ws[g], "value") : \E n \in (0..2) \ {ws[g].decls[v].num} :
+  \E g \in UFiles : \E v \in OfKind(ws[g], "value") :
+    \E n \in ((0..2) \cup UNION {{r[1], r[2], r[2] + 1} : r \in Range(ws[g].decls[ws[g].decls[v].parent].rr)}) \ {ws[g].decls[v].num} :
     Accept(SetDecl(g, v, [ws[g].decls[v] EXCEPT !.num = n]), "mut")
 (* remove a declaration without children; later declarations move up by one *)
 DropAt(F, d) ==
@@ -362,6 +365,10 @@ AddOptExt == "AddOptExt" \in Edits /\ tag = {} /\ HasDescriptor /\
     \E k \in {"file", "message", "field", "enum", "value", "service", "method"} :
       Accept(AddDecls(g, << XExt(nm, p, num, IF ws[g].syntax = "editions" THEN "" ELSE "optional", OptionsRef(k), TScalar("int32")) >>),
              IF "AddOptExt" \in MutAdds /\ MutOK THEN "both" ELSE "edit")
+(* one more reserved range on an enum: overlapping an existing one, covering a value, or harmless *)
+MutAddEnumRange == "AddEnumRange" \in Muts /\ MutOK /\
+  \E g \in UFiles : \E e \in OfKind(ws[g], "enum") : \E r \in {<<7, 9>>, <<1, 1>>, <<0, 0>>, <<6, 6>>} :
+    Accept([ws EXCEPT ![g].decls[e].rr = Append(@, r)], "mut")
 (* plain <-> public *)
 MutSetImpKind == "SetImpKind" \in Muts /\ MutOK /\
   \E g \in UFiles : \E k \in 1..Len(ws[g].imports) :
@@ -371,7 +378,7 @@ Next == \/ AddMsg \/ AddEnum \/ AddVal \/ AddFld \/ AddMap \/ AddOneof \/ AddExt
         \/ AddImport \/ AddRange \/ AddRName \/ AddDflt \/ AddJson
         \/ MutSetNum \/ MutSetLabel \/ MutRetarget \/ MutSetSyntax \/ MutSetName \/ MutSetPkg
         \/ MutSetValNum \/ MutDropLeaf \/ MutSetMapKey \/ MutSetDflt
-        \/ AddAliasVal \/ MutDropAlias \/ AddDep \/ MutSetImpKind \/ AddGroup \/ AddOptUse \/ AddOptExt
+        \/ AddAliasVal \/ MutDropAlias \/ AddDep \/ MutSetImpKind \/ AddGroup \/ AddOptUse \/ AddOptExt \/ MutAddEnumRange
 
 InitWs == {<<b, BaseWs(b, PkgOf(p))>> : b \in {x \in Bases : ~IsRich(x) /\ ~IsOptBase(x) /\ ~IsSynthBase(x) /\ x # "PX"}, p \in Pkg1Ids}
           \cup {<<b, RichWs(b)>> : b \in {x \in Bases : IsRich(x)}}
@@ -402,7 +409,7 @@ Features(w) ==
                          \cup (IF dl.json # "" THEN {"F-json"} ELSE {})
                          \cup (IF dl.xr # <<>> THEN {"F-extrange"} ELSE {})
                          \cup (IF dl.xopt # "" THEN {"F-extrange-options:" \o dl.xopt} ELSE {})
-                         \cup (IF dl.rr # <<>> THEN {"F-reserved"} ELSE {})
+                         \cup (IF dl.rr # <<>> THEN {"F-reserved:" \o dl.kind} ELSE {})
                          \cup (IF dl.rn # <<>> THEN {"F-reserved-name"} ELSE {})
                          \cup (IF dl.cs \/ dl.ss THEN {"F-stream"} ELSE {})
                          \cup (IF dl.alias THEN {"F-allow-alias"} ELSE {})
